@@ -319,8 +319,9 @@ let cbor_fmt : fmt = {
   idle = "0 0 0";
   equiv = cvalue_eqb;
   extref = false;
-  hist = (fun mode docs ->
-      let rec go p docs = match docs with
+  hist = (fun modes docs ->
+      let mode_at i = if String.length modes = 1 then modes else String.make 1 modes.[i] in
+      let rec go i p docs = let mode = mode_at i in match docs with
         | [] -> "?"
         | [ d ] ->
             let r = if mode = "P" then p_parse p (sink0 None) d
@@ -331,9 +332,9 @@ let cbor_fmt : fmt = {
                         | Panic _ -> "PANIC" | OutOfFuel -> "HANG" | Err _ -> "MODELERR")
         | d :: rest ->
             (match (if mode = "P" then p_parse p (sink0 None) d else p_write p (sink0 None) d) with
-             | Ok ((p1, _), _) -> go p1 rest
+             | Ok ((p1, _), _) -> go (i + 1) p1 rest
              | _ -> "HISTERR") in
-      go cparser0 docs);
+      go 0 cparser0 docs);
 }
 
 (* spec-level image for UBJSON (the property text): only integers above MaxInt64 become decimal strings *)
@@ -380,8 +381,9 @@ let ubj_fmt : fmt = {
   idle = "0 0 0";
   equiv = cvalue_eqb;
   extref = false;
-  hist = (fun mode docs ->
-      let rec go p docs = match docs with
+  hist = (fun modes docs ->
+      let mode_at i = if String.length modes = 1 then modes else String.make 1 modes.[i] in
+      let rec go i p docs = let mode = mode_at i in match docs with
         | [] -> "?"
         | [ d ] ->
             let r = if mode = "P" then up_parse p (sink0 None) d
@@ -392,9 +394,9 @@ let ubj_fmt : fmt = {
                         | Panic _ -> "PANIC" | OutOfFuel -> "HANG" | Err _ -> "MODELERR")
         | d :: rest ->
             (match (if mode = "P" then up_parse p (sink0 None) d else up_write p (sink0 None) d) with
-             | Ok ((p1, _), _) -> go p1 rest
+             | Ok ((p1, _), _) -> go (i + 1) p1 rest
              | _ -> "HISTERR") in
-      go uparser0 docs);
+      go 0 uparser0 docs);
 }
 
 
@@ -508,12 +510,13 @@ let json_fmt : fmt = {
           | Ok ((d', s), err) -> Ok ((d', s_log s), err)
           | Panic w -> Panic w | OutOfFuel -> OutOfFuel | Err e -> Err e) d0 nexts);
   cprop = "C04";
-  idle = "0 1 ";   (* the literal buffer may keep the digits of a number that ended the input; Parse resets it *)
+  idle = "0 1 0";   (* state stack empty, start state, literal buffer empty *)
   equiv = json_equiv;
   extref = true;
-  hist = (fun mode docs ->
+  hist = (fun modes docs ->
       let pf = parse_float_oracle in
-      let rec go p docs = match docs with
+      let mode_at i = if String.length modes = 1 then modes else String.make 1 modes.[i] in
+      let rec go i p docs = let mode = mode_at i in match docs with
         | [] -> "?"
         | [ d ] ->
             let r = if mode = "P" then jp_parse pf p (sink0 None) d
@@ -524,9 +527,9 @@ let json_fmt : fmt = {
                         | Panic _ -> "PANIC" | OutOfFuel -> "HANG" | Err _ -> "MODELERR")
         | d :: rest ->
             (match (if mode = "P" then jp_parse pf p (sink0 None) d else jp_write pf p (sink0 None) d) with
-             | Ok ((p1, _), _) -> go p1 rest
+             | Ok ((p1, _), _) -> go (i + 1) p1 rest
              | _ -> "HISTERR") in
-      go jparser0 docs);
+      go 0 jparser0 docs);
 }
 
 (* values described by "## REF" tokens (joined with '_') *)
